@@ -585,8 +585,56 @@ func c17captured(p *core.Prog, res *core.Result, fi *core.FuncInfo, rule string)
 		objs = append(objs, o)
 	}
 	sort.Slice(objs, func(i, j int) bool { return objs[i].Pos() < objs[j].Pos() })
+	// a shared slice handed out of the critical section by alias and then truncated in place:
+	// `batch := q; q = q[:0]` keeps q's backing array, so the other goroutine's append(q, …)
+	// overwrites the elements batch still holds, whatever lock protects q itself
+	aliasOfShared := map[types.Object]token.Pos{}
+	truncated := map[types.Object]token.Pos{}
+	ast.Inspect(fi.Decl.Body, func(nd ast.Node) bool {
+		as, ok := nd.(*ast.AssignStmt)
+		if !ok || len(as.Lhs) != len(as.Rhs) {
+			return true
+		}
+		for i, r := range as.Rhs {
+			r = ast.Unparen(r)
+			lo := defOrUse(info, as.Lhs[i])
+			if id, ok := r.(*ast.Ident); ok {
+				if so, ok := info.Uses[id].(*types.Var); ok && lo != nil && lo != so {
+					if _, isSlice := so.Type().Underlying().(*types.Slice); isSlice {
+						if _, shared := vars[so]; shared {
+							aliasOfShared[so] = as.Pos()
+						}
+					}
+				}
+			}
+			if se, ok := r.(*ast.SliceExpr); ok && se.Low == nil {
+				if so := defOrUse(info, se.X); so != nil && so == lo {
+					if _, shared := vars[so]; shared {
+						truncated[so] = as.Pos()
+					}
+				}
+			}
+		}
+		return true
+	})
 	for _, o := range objs {
 		as := vars[o]
+		if ap, ok := aliasOfShared[o]; ok {
+			if tp, ok2 := truncated[o]; ok2 {
+				inG := false
+				for _, a := range as {
+					if a.proc > 0 {
+						inG = true
+					}
+				}
+				if inG {
+					n++
+					res.Fn(fkey)
+					res.Bad(rule, fmt.Sprintf("%s|%s|alias", fkey, o.Name()), p.Pos(tp), fmt.Sprintf("%s: the slice %s, shared between goroutines, is copied by reference at %s and then truncated in place at %s (%s = %s[:…]): both keep one backing array, so appends by the other goroutine overwrite the elements the copy still holds — they are lost and later ones are delivered twice", fkey, o.Name(), p.Pos(ap), p.Pos(tp), o.Name(), o.Name()))
+					continue
+				}
+			}
+		}
 		inGoroutine := false
 		for _, a := range as {
 			if a.proc > 0 {
